@@ -238,7 +238,9 @@ def samplers(res, ctx, rng):
         if has_thd:
             nested.append(H.thd_data(thd[0], thd[1], rng.getrandbits(30), rng.randrange(128)))
         frames = [rng.getrandbits(47) for _ in range(4 * n_data)]
-        nframes = rng.choice((len(frames), max(0, len(frames) - 2), len(frames) + 3))
+        # the count may be anything from 0 (whole data records in surplus) to far beyond the data supplied
+        nframes = rng.choice((len(frames), max(0, len(frames) - 2), len(frames) + 3, 0, 1, max(0, len(frames) - 4),
+                              rng.randrange(len(frames) + 1)))
         if rng.random() < 0.15:
             nframes = rng.choice(H.HEADER_COUNT_BOUNDARIES)
         if has_hdr:
